@@ -424,41 +424,7 @@ func runC12(p *Prog, r *Report) {
 		r.Check(bad == "" && rows >= 2, "names.enum-table."+w.fn, "R-TABLE-AGREE", p.Pos(fn.Pos()), fmt.Sprintf("%d rows map each enum constant to the value its name spells", rows), w.fn+" maps enum constants to other values than their names spell:"+bad)
 	}
 	// content types classified alike
-	sets := map[string]map[string]bool{}
-	for _, name := range []string{"checkProtocol", "checkCodec", "checkCompression"} {
-		fn := p.Func(pkgRS, "", name)
-		sets[name] = map[string]bool{}
-		if fn == nil {
-			continue
-		}
-		eachInstr(fn, func(in ssa.Instruction) {
-			switch x := in.(type) {
-			case *ssa.BinOp:
-				if x.Op == token.EQL {
-					if s, ok := constString(x.Y); ok && strings.HasPrefix(s, "application/grpc") {
-						sets[name]["=="+s] = true
-					}
-				}
-			case *ssa.Call:
-				if isCallToNamed(&x.Call, "strings", "", "HasPrefix") {
-					if s, ok := constString(x.Call.Args[1]); ok && strings.HasPrefix(s, "application/grpc") {
-						sets[name]["prefix:"+s] = true
-					}
-				}
-			}
-		})
-	}
-	want := []string{"==application/grpc", "==application/grpc-web", "prefix:application/grpc+", "prefix:application/grpc-web+"}
-	r.Sites += 3
-	missingCT := ""
-	for name, s := range sets {
-		for _, w := range want {
-			if !s[w] {
-				missingCT += " " + name + " lacks " + w + ";"
-			}
-		}
-	}
-	r.Check(missingCT == "", "names.content-types", "R-TABLE-AGREE", "-", "protocol, codec and compression checks all recognise the four gRPC / gRPC-Web content-type forms", "the protocol, codec and compression checks classify gRPC content types differently:"+missingCT+" a request with that content type gets its compression/codec read from the wrong place")
+	contentTypeSiblings(p, r)
 
 	// ---- feedback-channel ----
 	nprint, badPrint := 0, 0
@@ -850,4 +816,56 @@ func dataClosure(root ssa.Value) map[ssa.Value]bool {
 	}
 	visit(root)
 	return seen
+}
+
+// contentTypeSiblings: the reference server's protocol, codec and compression
+// checks classify the gRPC / gRPC-Web content types alike: every form
+// (`== "application/grpc…"`, `HasPrefix(…, "application/grpc…+")`) one of the
+// three recognises is recognised by all three. Shared by C12 and C01 (a
+// content type one check knows and another does not makes the reference pair
+// fail every permutation that uses it).
+func contentTypeSiblings(p *Prog, r *Report) {
+	sets := map[string]map[string]bool{}
+	all := map[string]bool{}
+	names := []string{"checkProtocol", "checkCodec", "checkCompression"}
+	for _, name := range names {
+		fn := p.Func(pkgRS, "", name)
+		sets[name] = map[string]bool{}
+		if fn == nil {
+			r.Undecided("names.content-types."+name, "R-SIBLING", name+" not found")
+			continue
+		}
+		r.Func(funcName(fn))
+		eachInstr(fn, func(in ssa.Instruction) {
+			switch x := in.(type) {
+			case *ssa.BinOp:
+				if x.Op == token.EQL || x.Op == token.NEQ {
+					for _, v := range []ssa.Value{x.X, x.Y} {
+						if s, ok := constString(v); ok && strings.HasPrefix(s, "application/grpc") {
+							sets[name]["=="+s] = true
+							all["=="+s] = true
+						}
+					}
+				}
+			case *ssa.Call:
+				if isCallToNamed(&x.Call, "strings", "", "HasPrefix") {
+					if s, ok := constString(x.Call.Args[1]); ok && strings.HasPrefix(s, "application/grpc") {
+						sets[name]["prefix:"+s] = true
+						all["prefix:"+s] = true
+					}
+				}
+			}
+		})
+	}
+	r.Sites += 3
+	r.Floor("grpc-content-type-forms", len(all), 4)
+	missingCT := ""
+	for _, name := range names {
+		for _, w := range sortedKeys(all) {
+			if !sets[name][w] {
+				missingCT += " " + name + " lacks " + w + ";"
+			}
+		}
+	}
+	r.Check(missingCT == "", "names.content-types", "R-SIBLING", "-", fmt.Sprintf("protocol, codec and compression checks all recognise the same %d gRPC / gRPC-Web content-type forms: %s", len(all), strings.Join(sortedKeys(all), " ")), "the protocol, codec and compression checks classify gRPC content types differently:"+missingCT+" a request with that content type gets its compression/codec read from the wrong place")
 }
